@@ -50,6 +50,7 @@ func TestVerifSim(t *testing.T) {
 			"the reference for InitialState.ConfState is the snapshot membership with every configuration-change entry up to HardState.Commit applied by etcd's confchange package (raft.MemoryStorage alone only returns the snapshot membership)",
 			"the repo's read API has no ErrCompacted/ErrUnavailable: for a request outside [FirstIndex, LastIndex] an error, a zero term, or only held entries are all accepted; entries below FirstIndex, entries above LastIndex, or a non-zero term for an index the reference does not hold are violations",
 			"reads are never issued concurrently with a write on the same scope (multiraft drives each scope from one goroutine)",
+			"at most one snapshot-writing mutation is in flight at a time: publishSnapshotAndCommit holds DB.snapshotLifecycleMu (sync.Mutex) across the group commit, and a goroutine blocked on a sync.Mutex stops a synctest bubble's clock; concurrent steps therefore mix one snapshot writer with appends/marks of other scopes",
 		},
 	})
 }
@@ -91,7 +92,9 @@ func drawCfg(r *simkit.Run) config {
 	c.NoFaults = tp.Intn(4) == 0
 	c.Torn = tp.Intn(2) == 1
 	c.Diverged = tp.Intn(4) == 3
-	c.MemTable = []uint64{4 << 20, 16 << 10, 4 << 10, 64 << 10}[tp.Intn(4)]
+	// 256 KiB never fills in these histories (no flush except at recovery);
+	// the small sizes force flushes, WAL rotation and compactions mid-history.
+	c.MemTable = []uint64{256 << 10, 16 << 10, 4 << 10, 64 << 10}[tp.Intn(4)]
 	c.Chunk = []uint64{1 << 20, 16, 64, 5}[tp.Intn(4)]
 	c.Wait = []time.Duration{5 * time.Millisecond, time.Millisecond, 50 * time.Millisecond}[tp.Intn(3)]
 	c.Items = []int{128, 2, 1, 3}[tp.Intn(4)]
@@ -246,6 +249,15 @@ func (w *world) teardown() {
 	w.mu.Lock()
 	w.tracking = false
 	w.mu.Unlock()
+	if os.Getenv("RLS_DEBUG") != "" && w.liveFS != nil {
+		names, _ := w.liveFS.List("/raft")
+		for _, n := range names {
+			if st, err := w.liveFS.Stat("/raft/" + n); err == nil {
+				fmt.Fprintf(os.Stderr, "DEBUG file %s %d\n", n, st.Size())
+			}
+		}
+		fmt.Fprintf(os.Stderr, "DEBUG fsops=%d walsyncs=%d sst=%d verifs=%d\n", w.fsOps, w.walSyncs, w.sstCreates, w.verifs)
+	}
 	if w.db != nil {
 		_ = w.db.Close()
 		w.db = nil
@@ -464,8 +476,12 @@ func (w *world) mutationStep(step, n int) {
 	muts := make([]*mutation, len(sis))
 	sp := w.currentPlan("mutation")
 	next := make([]*refState, len(sis))
+	snapWriter := false
 	for k, si := range sis {
-		muts[k] = w.genMutation(si)
+		muts[k] = w.genMutation(si, snapWriter)
+		if muts[k].kind == mReplace || (muts[k].kind == mSave && muts[k].st.Snapshot != nil) {
+			snapWriter = true
+		}
 		next[k] = muts[k].applyRef(w.refs[si])
 		sp.in[si] = true
 		r.Logf("step %d %s: %s", step, w.names[si], muts[k].desc)
